@@ -52,7 +52,14 @@ inductive WordAction | capitalize | lowercase | uppercase
 deriving DecidableEq, Repr
 
 /-- `line_buffer::Direction` of a deletion notification -/
-inductive Direction | forward | backward
+inductive Direction
+  | forward | backward
+  /-- not a value of the Rust enum: the notification is `DeleteListener::delete_around(idx, before,
+      after)`, the deleted text is `before ++ after` and `before` is `k` bytes long (whole line(s) /
+      buffer deletion with the cursor inside the span).  The default implementation of the trait method
+      is `delete(idx, before + after, Forward)`, which is what every listener that only looks at index
+      and text does with it. -/
+  | around (k : Nat)
 deriving DecidableEq, Repr
 
 /-- Rust panics are outcomes of the model (slice out of range / off a char boundary, `unwrap` on
